@@ -302,6 +302,16 @@ class C19(Prop):
                 wc['hooks'] = {rng.choice(['before_spawn', 'after_spawn']): {
                     'script': ['true', 'false'], 'ignore': False}}
             cfg['warmup_delay'] = rng.choice([0.5, 1.1])
+        if rng.random() < 0.06:
+            # "retry indefinitely" and a handful of spawn attempts that fail
+            # (fork: EAGAIN) inside the start-up sequence
+            wc = rng.choice(cfg['watchers'])
+            wc['opts']['max_retry'] = -1
+            wc['opts']['numprocesses'] = max(2, wc['opts']['numprocesses'])
+            wc['opts'].pop('singleton', None)
+            wc['opts']['warmup_delay'] = rng.choice([1.1, 1.7])
+            k0 = rng.randrange(1, 6)
+            cfg['exec_fail'] = dict((str(k0 + i), 11) for i in range(5))
         for _ in range(rng.choice([0, 1, 2, 3])):
             kind = rng.choice(['startall', 'restartglob', 'startglob'])
             glob = rng.choice(['w*', 'w*', 'W*', 'w[0-2]', 'w[13]', '*'])
